@@ -136,10 +136,14 @@ func (w *World) entryOnlyVia(b *ssa.BasicBlock, conds ...string) bool {
 	}
 	for _, p := range b.Preds {
 		ifi, ok := lastInstr(p).(*ssa.If)
-		if !ok || len(p.Succs) != 2 || p.Succs[0] != b || p.Succs[1] == b {
+		if !ok || len(p.Succs) != 2 || p.Succs[0] == p.Succs[1] || (p.Succs[0] != b && p.Succs[1] != b) {
 			return false
 		}
 		c := w.Canon(ifi.Cond)
+		if p.Succs[1] == b {
+			// entered on the false edge: the negated test holds
+			c = negateCond(c)
+		}
 		found := false
 		for _, want := range conds {
 			if c == want {
@@ -153,7 +157,7 @@ func (w *World) entryOnlyVia(b *ssa.BasicBlock, conds ...string) bool {
 		}
 		if !found {
 			// a boolean helper that stands for the disjunction of the wanted tests
-			if call, isCall := ifi.Cond.(*ssa.Call); isCall && len(b.Preds) == 1 && w.boolHelperIsOr(call, conds) {
+			if call, isCall := ifi.Cond.(*ssa.Call); isCall && len(b.Preds) == 1 && p.Succs[0] == b && w.boolHelperIsOr(call, conds) {
 				found = true
 			}
 		}
@@ -1446,31 +1450,59 @@ func o2(w *World, r *Report) {
 	}
 	// each frozen Set is preceded by the refund-height assignment of the same stake
 	for _, ref := range []fref{{pkgStake, "StakeCtrler", "exeUnstaking"}, {pkgStake, "StakeCtrler", "BeginBlock"}} {
-		fn := w.Method(ref.pkg, ref.typ, ref.name)
-		if fn == nil {
+		root := w.Method(ref.pkg, ref.typ, ref.name)
+		if root == nil {
 			continue
 		}
-		for _, c := range CallsIn(fn) {
-			isFrozenSet := false
-			for _, a := range w.ledgerArmsF(c) {
-				if (a.Method == "Set" || a.Method == "SetFinality") && strings.HasSuffix(w.Canon(ledgerRoot(a.Recv)), ".frozenLedger") {
-					isFrozenSet = true
+		// the function itself, its closures and the helpers of the package it calls
+		var hosts []*ssa.Function
+		seenH := map[*ssa.Function]bool{}
+		var addHost func(f *ssa.Function, d int)
+		addHost = func(f *ssa.Function, d int) {
+			if f == nil || f.Blocks == nil || seenH[f] || d > 2 || w.FuncPkgPath(f) != absPkg(pkgStake) {
+				return
+			}
+			seenH[f] = true
+			hosts = append(hosts, f)
+			for _, a := range f.AnonFuncs {
+				addHost(a, d)
+			}
+			for _, c := range CallsIn(f) {
+				if cal := c.Common().StaticCallee(); cal != nil && cal.Signature.Recv() != nil && cal.Parent() == nil {
+					if rn := recvNamed(c.Common()); rn != nil && rn.Obj().Name() == "StakeCtrler" {
+						addHost(cal, d+1)
+					}
 				}
 			}
-			if !isFrozenSet {
-				continue
-			}
-			arg := w.ledgerItemArg(c)
-			if arg == nil {
-				continue
-			}
-			ok := false
-			for _, fs := range w.fieldStores(fn) {
-				if fs.Field.Name() == "RefundHeight" && w.Canon(fs.Addr.(*ssa.FieldAddr).X) == w.Canon(arg) && instrDominates(fs.In, c) {
-					ok = true
+		}
+		addHost(root, 0)
+		for _, fn := range hosts {
+			for _, c := range CallsIn(fn) {
+				isFrozenSet := false
+				for _, a := range w.ledgerArmsF(c) {
+					if (a.Method == "Set" || a.Method == "SetFinality") && strings.HasSuffix(w.Canon(ledgerRoot(a.Recv)), ".frozenLedger") {
+						isFrozenSet = true
+					}
 				}
+				if !isFrozenSet {
+					continue
+				}
+				arg := w.ledgerItemArg(c)
+				if arg == nil {
+					continue
+				}
+				ok := false
+				for _, fs := range w.fieldStores(fn) {
+					if fs.Field.Name() == "RefundHeight" && w.Canon(fs.Addr.(*ssa.FieldAddr).X) == w.Canon(arg) && instrDominates(fs.In, c) {
+						ok = true
+					}
+				}
+				key := refStr(ref) + ":frozen-after-refund-height:" + w.Canon(arg)
+				if fn != root {
+					key = refStr(ref) + ":frozen-after-refund-height:" + w.FName(fn) + ":" + w.Canon(arg)
+				}
+				r.Check(ok, "O-2", key, "the stake's refund height is assigned before it enters the frozen ledger", "a stake enters the frozen ledger without a refund height (it would be refunded at once)", site(w, c))
 			}
-			r.Check(ok, "O-2", refStr(ref)+":frozen-after-refund-height:"+w.Canon(arg), "the stake's refund height is assigned before it enters the frozen ledger", "a stake enters the frozen ledger without a refund height (it would be refunded at once)", site(w, c))
 		}
 	}
 }
